@@ -383,7 +383,11 @@ func checkC10(r *Result) []Violation {
 			Step: c.Step}}
 	}
 	if r.Outcome != 0 {
-		return nil
+		// Not quiescent after a step budget hundreds of times what these scenarios need: some goroutine of the
+		// server keeps spinning on what the hostile client sent. "At worst the offending connection is closed."
+		return []Violation{{Prop: "C10", Rule: "C10.server_never_settles", Sig: "C10.server_never_settles",
+			Msg:  fmt.Sprintf("the servers did not become quiescent within %d scheduler steps after the hostile traffic; parked: %v blocked: %v", r.Steps, r.Parked, r.Blocked),
+			Step: r.Steps}}
 	}
 	// established sessions keep being served correctly
 	for _, v := range checkReplyModel(r, replyOpts{prop: "C10", wantAll: true, numbering: true}) {
